@@ -1,5 +1,5 @@
 """C13 — discovery covers exactly pytest's files, wherever the workspace lives."""
-import fnmatch
+import fnmatch, os
 from .. import core
 from ..pybuild import hx
 from .common import Run, corpus_cases, generic_replay, all_flags
@@ -93,6 +93,42 @@ def near_miss_tree():
     return files, []
 
 
+def linked_files_part(r):
+    """(fixed tree, CLI only) an entry whose NAME matches a pattern is collected whatever kind of directory entry it is:
+    `tests/conftest.py` and `unit/test_linked.py` are symbolic links to files whose own names match nothing
+    (`shared/base_fixtures.py`, `checks/linked_checks.py`) - their fixtures are indexed; the same tree at a second
+    location gives the same report"""
+    import shutil, re
+    from .c20 import run_cli
+    v = r.verdict
+    base = "/dev/shm/plsv-c13l-%d" % os.getpid()
+    shutil.rmtree(base, ignore_errors=True)
+    outs = []
+    for loc in ("one/ws", "elsewhere/build/ws"):
+        root = os.path.join(base, loc)
+        for d in ("shared", "checks", "tests", "unit"):
+            os.makedirs(os.path.join(root, d))
+        open(os.path.join(root, "shared", "base_fixtures.py"), "w").write(FX.format("linkedbase"))
+        open(os.path.join(root, "checks", "linked_checks.py"), "w").write(FX.format("linkedcheck") + "\ndef test_l(fx_linkedcheck):\n    pass\n")
+        open(os.path.join(root, "tests", "test_plain.py"), "w").write("def test_p(fx_linkedbase):\n    pass\n")
+        os.symlink(os.path.join("..", "shared", "base_fixtures.py"), os.path.join(root, "tests", "conftest.py"))
+        os.symlink(os.path.join("..", "checks", "linked_checks.py"), os.path.join(root, "unit", "test_linked.py"))
+        rc, out, err = run_cli(["fixtures", "list", root], {"RAYON_NUM_THREADS": "2"})
+        names = set(re.findall(r"fx_linked\w+", out))
+        outs.append(out.replace(root, "<root>"))
+        if names != {"fx_linkedbase", "fx_linkedcheck"}:
+            msg = (f"`fixtures list` on the linked tree at {loc} shows the fixtures {sorted(names)}; tests/conftest.py -> ../shared/base_fixtures.py "
+                   f"and unit/test_linked.py -> ../checks/linked_checks.py are entries named like pytest's files: fx_linkedbase and fx_linkedcheck are indexed")
+            v.violation("linked-files", msg, "# " + msg + "\n# --- fixtures list ---\n" + "".join("# | %s\n" % l for l in out.split("\n")))
+            break
+    else:
+        if outs[0] != outs[1]:
+            msg = "`fixtures list` differs between the two locations of the linked tree"
+            v.violation("linked-files-move", msg, "# " + msg + "\n" + "".join("# | %s\n" % l for o in outs for l in o.split("\n")))
+    shutil.rmtree(base, ignore_errors=True)
+    r.stats["linked_tree_cli_runs"] = len(outs)
+
+
 def gen_tree(rng, shared_helpers=False):
     files = {}
     ndirs = rng.choice([2, 3, 4, 6])
@@ -171,7 +207,7 @@ def oracle(files, unreadable, patterns, dirs_named_like_tests):
 
 
 def run(tier, seed):
-    r = Run(PROP, MODULE, THEOREMS, tier, seed)
+    r = Run(PROP, MODULE, THEOREMS, tier, seed, need_server=True)
     if not r.prepare():
         return r.finish(RULE)
     v = r.verdict
@@ -259,6 +295,7 @@ def run(tier, seed):
                     v.known(e_sp["id"], e_sp["summary"]); continue
                 msg = f"the same tree gives a different outcome at location {loc} than at the default location: {both[:300]} vs {base[0][:300]}"
                 v.violation(nm + "-reloc", msg, f"# {msg}\n" + cases.replay_text(nm) + cases.replay_text(base[1]))
+    linked_files_part(r)
     return r.finish(RULE)
 
 
